@@ -35,6 +35,13 @@ def run(ck):
                   "every resolution (longitudes also named in +-2pi); points on / next to all 30 icosahedron edges and 12 vertices "
                   "(offsets 1e-16..1e-3 rad); poles and their 0.12 degree caps, the antimeridian, the +-2pi rim, the equator; uniform "
                   "points; arbitrary finite doubles; NaN / infinities; resolutions outside 0..15")
+    tc = os.path.join(ck.tdir, "ll-threads.ndjson")
+    d = vlib.run_driver(drv, ["threads", ck.tier, ck.seed, tc], timeout=3000)
+    if d["rc"] != 0:
+        raise vlib.InfraError("driver failed rc=%s %s" % (d["rc"], d["err"][-1500:]))
+    ck.trace("points-concurrent", "Trace_LL", "Trace.cfg", tc, nchunks=16, balance=True, timeout=3400,
+             what="8 threads indexing their own uniform points (all resolutions) at the same time: the cell of a point does not depend "
+                  "on what other callers are doing")
     ck.ev.assumptions += ["TLC 1.8 / JVM", "H3Grid.tla transcription + frozen tables (neighbour sets)",
                           "numeric projection 'contains' (harness/vcontain.h, long double): distance from the point to the returned "
                           "cell's boundary polygon, inside-ness in the gnomonic chart at the cell centre; tolerance as stated in the "
